@@ -31,6 +31,10 @@ def _prop_modules(prop):
 def _worker(args):
     modnames, key, budget_ms = args
     t0 = time.time()
+    _log = os.environ.get('VERIF_TASKLOG')
+    if _log:
+        with open(_log, 'a') as f:
+            f.write('start %d %s\n' % (os.getpid(), key))
     try:
         for m in modnames:
             importlib.import_module(m)
@@ -40,14 +44,88 @@ def _worker(args):
         from pyvc import spec
         smt.axioms_consistency_selftest(spec.consistency_witnesses())
         task = REG.task(key)
+        # termination guard: z3 can sit in a check that ignores its resource limit until the stage's wall-clock cap;
+        # past this point the task's remaining obligations are reported undecided instead of keeping the check alive
+        smt.DEADLINE[0] = time.time() + (600 if budget_ms <= 120000 else 3600)
         results, meta = task.verify(REG, budget_ms)
         meta['wall_s'] = time.time() - t0
         meta['solver'] = dict(smt.STATS)
+        if _log:
+            with open(_log, 'a') as f:
+                f.write('end %d %s %.1f\n' % (os.getpid(), key, time.time() - t0))
         return key, results, meta, None
     except Exception as e:
         from pyvc.values import Unsupported
         kind = 'unsupported' if isinstance(e, Unsupported) else 'crash'
         return key, [], {'wall_s': time.time() - t0}, (kind, '%s: %s' % (type(e).__name__, e), traceback.format_exc())
+
+
+def _child(conn, args):
+    try:
+        conn.send(_worker(args))
+    finally:
+        conn.close()
+
+
+def _task_limits(prop, tasks, tier):
+    """wall-clock limit per task attempt: from the time the task took when the baseline was recorded (generous factor:
+    the verification harness was measured about three times slower than the machine the baseline was recorded on)"""
+    rec = (load_json(os.path.join(HERE, 'baseline_obligations.json'), {}).get(prop) or {}).get('wall_s', {})
+    cap = 420.0 if tier == 'quick' else 3600.0
+    return dict((k, min(cap, 60.0 + 8.0 * rec[k]) if k in rec else cap) for k in tasks)
+
+
+def _run_tasks(ctx, nproc, jobs, limits, attempts=3):
+    """One process per task (a reused worker would accumulate the modules of earlier tasks).  z3 was observed to sit in a
+    single check() that honours neither its resource limit nor its timeout (same task: 8 s in most runs); a worker that
+    exceeds its limit is killed and the task is started again in a fresh process, at most `attempts` times; a task
+    that never returns is reported as a checker problem (exit 3), never as a violation."""
+    pending = [(j, 1) for j in jobs]
+    running = {}         # key -> (process, conn, t0, job, attempt)
+    out = {}
+    while pending or running:
+        while pending and len(running) < nproc:
+            job, att = pending.pop(0)
+            a, b = ctx.Pipe(duplex=False)
+            pr = ctx.Process(target=_child, args=(b, job))
+            pr.start()
+            b.close()
+            running[job[1]] = (pr, a, time.time(), job, att)
+        time.sleep(0.05)
+        for key in list(running):
+            pr, conn, t0, job, att = running[key]
+            done = False
+            if conn.poll():
+                try:
+                    k, results, meta, err = conn.recv()
+                    meta['attempts'] = att
+                    out[k] = (results, meta, err)
+                    done = True
+                except EOFError:
+                    pass
+            if not done and not pr.is_alive() and not conn.poll():
+                out[key] = ([], {'wall_s': time.time() - t0, 'attempts': att},
+                            ('crash', 'worker process ended without a result (exit code %s)' % pr.exitcode, ''))
+                done = True
+            if not done and time.time() - t0 > limits.get(key, 420.0):
+                pr.kill()
+                pr.join(5)
+                conn.close()
+                del running[key]
+                if att < attempts:
+                    print('  task %s exceeded %.0f s (attempt %d): worker killed, task restarted' % (key, limits.get(key, 420.0), att))
+                    pending.append((job, att + 1))
+                else:
+                    out[key] = ([], {'wall_s': time.time() - t0, 'attempts': att},
+                                ('crash', 'no result within %.0f s in %d attempts (solver not terminating)' % (limits.get(key, 420.0), att), ''))
+                continue
+            if done:
+                pr.join(5)
+                if pr.is_alive():
+                    pr.kill()          # (interpreter exit can hang on z3 objects; the result is already here)
+                conn.close()
+                del running[key]
+    return out
 
 
 def load_json(path, default):
@@ -88,11 +166,8 @@ def run_check(prop, tier, seed, replay=None, update_baseline=False):
     budget = 120000 if tier == "quick" else 300000
     nproc = min(16, len(tasks), os.cpu_count() or 4)
     ctx = mp.get_context('spawn')
-    out = {}
-    # one process per task (max_tasks_per_child=1): a reused worker would accumulate the modules of earlier tasks
-    with cf.ProcessPoolExecutor(max_workers=nproc, mp_context=ctx, max_tasks_per_child=1) as pool:
-        for key, results, meta, err in pool.map(_worker, [([owner.get(k, modnames[0])], k, budget) for k in tasks]):
-            out[key] = (results, meta, err)
+    out = _run_tasks(ctx, nproc, [([owner.get(k, modnames[0])], k, budget) for k in tasks],
+                     _task_limits(prop, tasks, tier))
 
     known = load_json(os.path.join(HERE, 'known_findings.json'), {'findings': []})['findings']
     baseline = load_json(os.path.join(HERE, 'baseline_obligations.json'), {})
@@ -258,7 +333,8 @@ def run_check(prop, tier, seed, replay=None, update_baseline=False):
     if update_baseline and exit_code == 0:
         bad_tasks = set(r['contract'] for r in all_results if r['verdict'] != 'proved')
         names = sorted(set(r['contract'] for r in all_results) - bad_tasks)
-        baseline[prop] = {'tasks': names, 'obligations': len(proved)}
+        baseline[prop] = {'tasks': names, 'obligations': len(proved),
+                          'wall_s': dict((k, round(v[1].get('wall_s', 0.0), 1)) for k, v in out.items())}
         with open(os.path.join(HERE, 'baseline_obligations.json'), 'w') as f:
             json.dump(baseline, f, indent=0, sort_keys=True)
         print('baseline updated: %d fully discharged tasks (%d obligations) for %s' % (len(names), len(proved), prop))
